@@ -67,6 +67,64 @@ def prelim_names(mod):
     return out
 
 
+def gen_layout(rng):
+    """Task files below directories whose names derive equal module names, and packages."""
+    dirs = rng.sample(["a.b", "a_b", "a.b/c", "a_b/c", "x", "r1/pkg", "r2/pkg", "r1/pkg/sub", "r2/pkg/sub", "v.1/w", "v_1/w"], rng.randint(2, 5))
+    inits = set()
+    for d in dirs:
+        parts = d.split("/")
+        if "pkg" in parts and rng.random() < 0.8:
+            for k in range(parts.index("pkg") + 1, len(parts) + 1):
+                inits.add("/".join(parts[:k]))
+    mods = {}
+    for i, d in enumerate(dirs):
+        for fn in rng.sample(["task_m.py", "task_n.py"], rng.randint(1, 2)):
+            mods[f"{d}/{fn}"] = {"prefixed": ["task_f"], "decorated": [], "tag": f"L{len(mods)}"}
+    return {"modules": mods, "inits": [f"{d}/__init__.py" for d in sorted(inits)], "paths": ["."], "pkgs": sorted(inits)}
+
+
+def comps(rel):
+    parts = rel.split("/")
+    parts[-1] = parts[-1][:-3] if parts[-1].endswith(".py") else parts[-1]
+    return [[ord(c) for c in x] for x in parts]
+
+
+def run_layouts(out, rng, n):
+    cases = [gen_layout(rng) for _ in range(n)]
+    # the F9 witness first
+    cases.insert(0, {"modules": {"a.b/task_m.py": {"prefixed": ["task_f"], "decorated": [], "tag": "L0"},
+                                 "a_b/task_m.py": {"prefixed": ["task_f"], "decorated": [], "tag": "L1"}}, "inits": [], "paths": ["."], "pkgs": []})
+    cases.insert(1, {"modules": {"r1/pkg/task_m.py": {"prefixed": ["task_f"], "decorated": [], "tag": "L0"},
+                                 "r2/pkg/task_m.py": {"prefixed": ["task_f"], "decorated": [], "tag": "L1"}},
+                     "inits": ["r1/pkg/__init__.py", "r2/pkg/__init__.py"], "paths": ["."], "pkgs": ["r1/pkg", "r2/pkg"]})
+    chunks = [cases[i::JOBS] for i in range(JOBS)]
+    with ThreadPoolExecutor(max_workers=JOBS) as ex:
+        res = list(ex.map(lambda ch: run_impl_worker("impl_collect.py", ch, timeout=3000) if ch else [], chunks))
+    flat_cases = [c for ch in chunks for c in ch]
+    flat_res = [r for rr in res for r in rr]
+    terms = []
+    for c in flat_cases:
+        paths = sorted(c["modules"])
+        terms.append(([comps(d) for d in c["pkgs"]], [comps(p) for p in paths]))
+    model = coq_eval_cases("c13lay", IMPORTS, "fun c => match c with (pk, ps) => import_all (fun d => existsb (eqbP d) pk) [] ps end", terms, shard=100)
+    for c, r, m in zip(flat_cases, flat_res, model):
+        paths = sorted(c["modules"])
+        out.case({"layout": paths, "inits": c["inits"]}, nontrivial=True)
+        out.count("layouts")
+        if r.get("exit") == -1:
+            out.disagreement("build did not return", {"case": c, "result": r}); continue
+        key = {tuple(map(tuple, comps(p))): p for p in paths}
+        want = []
+        for pth, f in m:
+            want.append(c["modules"][key[tuple(map(tuple, f))]]["tag"] + ":p0")
+        if sorted(want) != sorted(r["ran"]) or r["exit"] != 0:
+            out.disagreement("functions executed differ from the modules the model imports", {"case": c, "impl_ran": sorted(r["ran"]), "model": sorted(want), "exit": r["exit"]})
+        tags = sorted(mod["tag"] + ":p0" for mod in c["modules"].values())
+        if sorted(r["ran"]) != tags or len(r["tasks"]) != len(paths) or len(set(r["sigs"])) != len(r["sigs"]):
+            out.violation("task files and collected tasks do not correspond one to one (a module was imported for another file)",
+                          {"layout": paths, "inits": c["inits"], "tasks": r["tasks"], "ran": sorted(r["ran"]), "expected": tags})
+
+
 def run(out, tier, seed, proof):
     rng = rng_for(seed, "c13")
     n = 60 if tier == "quick" else 800
@@ -137,5 +195,6 @@ def run(out, tier, seed, proof):
                         fid = ("F7",)
                 out.violation("functions and collected tasks do not correspond one to one although collection succeeded",
                               {"case": c, "tasks": names, "functions": nfun, "ran": ran}, finding_matchers=fid)
+    run_layouts(out, rng, 12 if tier == "quick" else 150)
     out.coverage["programs"] = len(flat_cases)
     out.sample({"case": flat_cases[0], "result": {k: flat_res[0].get(k) for k in ("exit", "tasks", "ran")}})
